@@ -3,7 +3,8 @@
 # Usage: build.sh [quiet]
 set -u
 V=/verif
-B=$V/build
+B=${VERIF_BUILD:-$V/build}
+REPO=${VERIF_REPO:-/repo}
 mkdir -p "$B" "$B/tmp" "$B/obj"
 exec 9>"$B/.lock"
 flock 9
@@ -23,7 +24,7 @@ fi
 
 # 2. instrumented pika
 if [ ! -f "$B/pika-sim/build.ninja" ]; then
-  cmake -G Ninja -S /repo -B "$B/pika-sim" -DCMAKE_CXX_COMPILER=clang++-14 -DCMAKE_BUILD_TYPE=Release \
+  cmake -G Ninja -S "$REPO" -B "$B/pika-sim" -DCMAKE_CXX_COMPILER=clang++-14 -DCMAKE_BUILD_TYPE=Release \
     -DPIKA_WITH_MALLOC=system -DPIKA_WITH_TESTS=OFF -DPIKA_WITH_EXAMPLES=OFF -DPIKA_WITH_UNITY_BUILD=ON \
     -DPIKA_WITH_MPI=ON -Dfmt_DIR=/usr/lib/x86_64-linux-gnu/cmake/fmt \
     -DCMAKE_CXX_FLAGS="$SIMFLAGS -DPIKA_VERIF_SIM -Wno-unused-command-line-argument -g" \
@@ -33,6 +34,6 @@ fi
 ninja -C "$B/pika-sim" pika >>"$LOG" 2>&1 || fail "libpika"
 
 # 3. harness (make-style, parallel)
-python3 "$V/scripts/build_harness.py" >>"$LOG" 2>&1 || fail "harness"
+VERIF_BUILD="$B" python3 "$V/scripts/build_harness.py" >>"$LOG" 2>&1 || fail "harness"
 [ "${1:-}" = quiet ] || echo "build ok"
 exit 0
